@@ -124,23 +124,24 @@ def parseCfg (s : String) : Option (Option Config) :=
 
 inductive Carried where
   | reject
-  | ok (rp : Option RoutePath)
+  | ok (rp : Option RoutePath) (toCM : Bool)
 
 def parseCarried (route send : String) : Option Carried := do
-  let sendArg ← if send = "D" then some SendArg.dflt else if send = "E" then some SendArg.empty else none
+  let sendArg ← if send = "D" then some SendArg.dflt else if send = "E" then some SendArg.empty
+    else if send = "O1" || send = "O2" || send = "O3" then some SendArg.other else none
   let conv : Option (Option RoutePath) → Carried := fun
     | none => .reject
-    | some rp => .ok rp
+    | some rp => .ok rp sendArg.toCM
   if route = "D" then pure (conv (clientCarried .dflt sendArg))
   else if route = "F" then pure (conv (clientCarried .falsy sendArg))
-  else if route = "N" then pure (.ok none)
+  else if route = "N" then pure (.ok none true)
   else match route.toList with
     | 'T' :: ':' :: h => do pure (conv (clientCarried (.text (← bytesOfHex (String.ofList h))) sendArg))
     | 'L' :: ':' :: h => do
       match jsonLoads (← bytesOfHex (String.ofList h)) with
       | some (.list xs) => pure (conv (clientCarried (.list xs) sendArg))
       | _ => none
-    | 'R' :: ':' :: segs => do pure (.ok (some (← parseSegs (String.ofList segs))))
+    | 'R' :: ':' :: segs => do pure (.ok (some (← parseSegs (String.ofList segs))) true)
     | _ => none
 
 def parseOp (s : String) : Option Op :=
@@ -151,7 +152,8 @@ def parseOp (s : String) : Option Op :=
   | ["g", a] => do pure (.gas (← a.toNat?))
   | ["s", a, vs] => do pure (.sas (← a.toNat?) (← natList vs))
   | ["a"] => some .gaa
-  | ["u"] => some .unknown
+  | ["u"] => some (.unknown false)
+  | ["uf"] => some (.unknown true)
   | _ => none
 
 def parseReq (s : String) : Option Req :=
@@ -191,9 +193,9 @@ def parseFrames : List String → Option (List (Carried × Req))
     pure ((c, q) :: fs)
   | _ => none
 
-def framesOk : List (Carried × Req) → Option (List (Option RoutePath × Req))
+def framesOk : List (Carried × Req) → Option (List (Option RoutePath × Bool × Req))
   | [] => some []
-  | (.ok rp, q) :: rest => (framesOk rest).map fun l => (rp, q) :: l
+  | (.ok rp cm, q) :: rest => (framesOk rest).map fun l => (rp, cm, q) :: l
   | (.reject, _) :: _ => none
 
 def handle : List String → Option String
@@ -225,8 +227,8 @@ def handle : List String → Option String
     | some cfg =>
       match carried with
       | .reject => pure "build-reject"
-      | .ok rp =>
-        let (d, r) := serve cfg ⟨tags, []⟩ rp req
+      | .ok rp cm =>
+        let (d, r) := serve cfg ⟨tags, []⟩ rp cm req
         pure (showReply r ++ " " ++ showDev d)
   | "rp.sess" :: cfg :: tags :: frames => do
     let cfg ← parseCfg cfg
